@@ -214,6 +214,17 @@ func (fv *FnV) fieldOf(st *State, v Val, idx int, n ast.Node) Val {
 			fv.nilCheck(st, v, n)
 			key := fv.heapKey(pt.Elem(), f.Name())
 			r := Val{fmt.Sprintf("(select %s %s)", fv.heapGet(st, key), v.T), fv.smt.resolve(f.Type())}
+			if fv.smt.isHeapPtr(r.Ty) && !fv.spec && len(v.T) < 200 {
+				// a reference allocated on this path is not stored in the heap that pre-dates it
+				for _, fr := range st.fresh {
+					arr, ok := fr.snap[key]
+					if !ok {
+						arr = "H0_" + sanitize(key)
+						fv.smt.declareFun(arr, fmt.Sprintf("(declare-const %s %s)", arr, fv.heapSort(key)))
+					}
+					st.assume(fmt.Sprintf("(not (= (select %s %s) %s))", arr, v.T, fr.ref))
+				}
+			}
 			fv.closedHeapFact(st, r)
 			fv.assumeRange(st, r)
 			return r
@@ -409,6 +420,11 @@ func (fv *FnV) allocRef(st *State, t types.Type) string {
 	st.assume(fmt.Sprintf("(> %s 0)", r))
 	st.assume(fmt.Sprintf("(not (select %s %s))", al, r))
 	st.heap["$alloc"] = fv.name("alloc", fmt.Sprintf("(store %s %s true)", al, r), "(Array Int Bool)")
+	snap := make(map[string]string, len(st.heap))
+	for k, v := range st.heap {
+		snap[k] = v
+	}
+	st.fresh = append(st.fresh, freshRef{ref: r, snap: snap})
 	return r
 }
 
